@@ -1,0 +1,18 @@
+//go:build verif
+
+// Package verifhook: observation points for the verification harness (build tag "verif").
+package verifhook
+
+import "sync/atomic"
+
+var handler atomic.Value // func(string)
+
+// SetHandler installs the callback invoked at every Point.
+func SetHandler(f func(name string)) { handler.Store(f) }
+
+// Point reports that execution reached the named point.
+func Point(name string) {
+	if f, ok := handler.Load().(func(string)); ok && f != nil {
+		f(name)
+	}
+}
